@@ -408,6 +408,33 @@ func c14SwitchComplete(c *Ctx) {
 			bo, ok := v.(*ssa.BinOp)
 			return ok && bo.Op == token.ADD
 		})
+		// nested form: `switch typeName { case "T": switch field { case "f": … } }`
+		var strParams []ssa.Value
+		for _, p := range fn.Params {
+			if bt, ok := p.Type().Underlying().(*types.Basic); ok && bt.Kind() == types.String {
+				strParams = append(strParams, p)
+			}
+		}
+		if len(strParams) >= 2 {
+			edges := an.CondEdges(fn)
+			for _, e1 := range edges {
+				tname, ok1 := an.ConstString(e1.Fact.Y)
+				if e1.Fact.Op != token.EQL || !ok1 || an.Strip(e1.Fact.X) != strParams[0] {
+					continue
+				}
+				for _, e2 := range edges {
+					fname, ok2 := an.ConstString(e2.Fact.Y)
+					if e2.Fact.Op != token.EQL || !ok2 || an.Strip(e2.Fact.X) != strParams[1] {
+						continue
+					}
+					if e1.To == e2.If.Block() || e1.To.Dominates(e2.If.Block()) {
+						if _, dup := cases[tname+"."+fname]; !dup {
+							cases[tname+"."+fname] = e2.To
+						}
+					}
+				}
+			}
+		}
 		var names []string
 		for n := range sch.Types {
 			names = append(names, n)
